@@ -20,7 +20,8 @@ SmallCfgs1 == {<<2, 1, 64>>, <<1, 2, 64>>, <<2, 3, 2>>, <<3, 2, 130>>, <<2, 2, 6
               \cup (IF Big THEN {<<4, 1, 6>>, <<1, 4, 192>>, <<5, 3, 4>>} ELSE {})
 SmallCfgs == {<<c[1], c[2], c[3] * Scale>> : c \in SmallCfgs1}
 \* large configurations at the envelope boundary: reset / rehouse only (valid for some kinds only)
-LargeCfgs == {<<61440, 4096, 2>>, <<4096, 61440, 2>>, <<32768, 32768, 2>>, <<49152, 16384, 4>>, <<16384, 49152, 4>>}
+LargeCfgs == {<<61440, 4096, 2>>, <<4096, 61440, 2>>, <<32768, 32768, 2>>, <<49152, 16384, 4>>, <<16384, 49152, 4>>,
+              <<65535, 1, 2>>, <<1, 65535, 2>>}
 \* invalid ones: counts 0, 65536, just outside the staircase, usize::MAX; sizes 0, odd, usize::MAX
 BadCfgs == {<<0, 1, 64>>, <<1, 0, 64>>, <<0, 0, 0>>, <<65536, 1, 64>>, <<1, 65536, 64>>, <<65535, 2, 64>>,
             <<2, 65535, 64>>, <<32769, 32768, 2>>, <<-1, 1, 64>>, <<1, -1, 64>>, <<-2, -1, 64>>,
